@@ -338,6 +338,8 @@ def no_trace_create(creator, fix_split=None):
             return True
         if fix_split == 0 and k_b:
             return True
+        if fix_split == 1 and (k_a > 1 or extra):
+            return True
         names_a = [n0, n1][:k_a]
         names_b = [n2, n3][:k_b]
         length = None
